@@ -252,7 +252,9 @@ impl GitDiff {
         let mut result = changed_files;
         for path in deleted_paths {
             let full_path = self.workdir.join(&path);
-            if full_path.exists() {
+            // Only a regular file counts as "still present": a symbolic link left at the
+            // path would otherwise pull its (unchanged) target into the set.
+            if full_path.symlink_metadata().is_ok_and(|m| m.is_file()) {
                 result.insert(full_path);
             }
         }
@@ -285,8 +287,13 @@ impl GitDiff {
             let path = prefix.join(name);
 
             if let Some(base_entry) = base_entries.get(name) {
-                // Entry exists in both trees - check if OIDs differ
-                if base_entry.oid != target_entry.oid {
+                // Entry exists in both trees - check if OIDs differ. A file and a symbolic
+                // link can share an OID (the link target is stored as a blob), so a change of
+                // kind between the two is a change even when the OIDs are equal.
+                if base_entry.oid != target_entry.oid
+                    || Self::is_regular_file(base_entry.kind)
+                        != Self::is_regular_file(target_entry.kind)
+                {
                     Self::process_changed_entry(
                         base_entry,
                         target_entry,
@@ -427,6 +434,10 @@ impl GitDiff {
             EntryKind::Commit | EntryKind::Link => {}
         }
         Ok(())
+    }
+
+    const fn is_regular_file(kind: EntryKind) -> bool {
+        matches!(kind, EntryKind::Blob | EntryKind::BlobExecutable)
     }
 
     /// Build a map of tree entries by filename for efficient lookup.
